@@ -19,13 +19,25 @@ def main():
     ap.add_argument("--tier", default=os.environ.get("VERIF_TIER", "quick"), choices=["quick", "thorough"])
     ap.add_argument("--replay", default=None)
     a = ap.parse_args()
-    mod = importlib.import_module("props." + a.prop.lower())
     chk = lib.Check(a.prop, a.tier)
     chk.cov["trusted_base"] = list(lib.TRUSTED_BASE)
-    if a.replay:
-        rc = mod.replay(chk, a.replay)
-        sys.exit(rc)
-    mod.run(chk)
+    try:
+        mod = importlib.import_module("props." + a.prop.lower())
+        if a.replay:
+            rc = mod.replay(chk, a.replay)
+            sys.exit(rc)
+        mod.run(chk)
+    except SystemExit as e:
+        if isinstance(e.code, int) or e.code is None:
+            raise
+        # a driver could not be built against the current tree (the repository no longer compiles against the harness,
+        # the model no longer builds): the correspondence cannot be checked at all
+        chk.violation("machinery", "the correspondence check could not be run: %s\nNo input on which the property itself fails was "
+                      "looked for.\n" % e.code, no_input=True)
+    except Exception:
+        import traceback
+        chk.violation("machinery", "the check stopped with an internal error before it reached a verdict:\n%s\nNo input on which "
+                      "the property itself fails was found.\n" % traceback.format_exc()[-3000:], no_input=True)
     sys.exit(chk.finish())
 
 
